@@ -13,18 +13,20 @@ Import ListNotations.
 
 (* ------------------------------------------------------------------------------------------ 1. statements *)
 (* how a statement (block) ends when no exception propagates: control falls through to the next statement with
-   the variables it (re-)bound, or a `return` was executed (callback returns None: no value is carried) *)
-Inductive ctl (A : Type) := Normal (a : A) | Return.
-Arguments Normal {A} a.
-Arguments Return {A}.
-Definition stm (A : Type) : Type := M (ctl A).
+   the variables it (re-)bound, or a `return` was executed, carrying the function's value (R = unit for a function
+   returning None, like callback) *)
+Inductive ctl (R A : Type) := Normal (a : A) | Return (r : R).
+Arguments Normal {R A} a.
+Arguments Return {R A} r.
+Definition stm (R A : Type) : Type := M (ctl R A).
 
-Definition next {A} (a : A) : stm A := ret (Normal a).           (* fall through *)
-Definition return_ {A} : stm A := ret Return.                     (* return *)
-Definition raise_ {A} (x : xkind) : stm A := raise x.             (* raise exc / raise *)
-Definition lift {A} (a : M A) : stm A := bind a (fun v => ret (Normal v)).   (* a primitive as a statement *)
-Definition sbind {A B} (a : stm A) (f : A -> stm B) : stm B :=   (* a ; f *)
-  bind a (fun r => match r with Normal v => f v | Return => ret Return end).
+Definition next {R A} (a : A) : stm R A := ret (Normal a).        (* fall through *)
+Definition return_ {A} : stm unit A := ret (Return tt).           (* return          (function returning None) *)
+Definition return_v {R A} (r : R) : stm R A := ret (Return r).    (* return r *)
+Definition raise_ {R A} (x : xkind) : stm R A := raise x.         (* raise exc / raise *)
+Definition lift {R A} (a : M A) : stm R A := bind a (fun v => ret (Normal v)).   (* a primitive as a statement *)
+Definition sbind {R A B} (a : stm R A) (f : A -> stm R B) : stm R B :=   (* a ; f *)
+  bind a (fun r => match r with Normal v => f v | Return r => ret (Return r) end).
 Notation "x <~ a ;; b" := (sbind a (fun x => b)) (at level 61, a at next level, right associativity).
 
 (* `except Exception` catches every exception of the model but GeneratorExit (a BaseException) *)
@@ -32,23 +34,26 @@ Definition is_exception (x : xkind) : bool := match x with XGenExit => false | _
 
 (*  try: a   except Exception as x: h x   [else: e]
     the handler and the else-suite are outside the protected region; a `return` in the try-suite skips `else` *)
-Definition try_else {A B} (a : stm A) (h : xkind -> stm B) (e : A -> stm B) : stm B :=
+Definition try_else {R A B} (a : stm R A) (h : xkind -> stm R B) (e : A -> stm R B) : stm R B :=
   match a with
   | (es, Exc x) => if is_exception x then (let (es', o) := h x in (es ++ es', o)) else (es, Exc x)
   | (es, Ok (Normal v)) => let (es', o) := e v in (es ++ es', o)
-  | (es, Ok Return) => (es, Ok Return)
+  | (es, Ok (Return r)) => (es, Ok (Return r))
   end.
-Definition try_except {A} (a : stm A) (h : xkind -> stm A) : stm A := try_else a h next.
+Definition try_except {R A} (a : stm R A) (h : xkind -> stm R A) : stm R A := try_else a h next.
 
 (*  for x in l: body      with the variables the body re-binds as the loop-carried state s *)
-Fixpoint for_ {X S : Type} (l : list X) (body : X -> S -> stm S) (s : S) : stm S :=
+Fixpoint for_ {R X S : Type} (l : list X) (body : X -> S -> stm R S) (s : S) : stm R S :=
   match l with
   | [] => next s
   | x :: l' => sbind (body x s) (for_ l' body)
   end.
 
 (* the body of an `async def` returning None: falling off the end and `return` are the same *)
-Definition run_fn (a : stm unit) : M unit := bind a (fun _ => ret tt).
+Definition run_fn (a : stm unit unit) : M unit := bind a (fun _ => ret tt).
+(* the body of an `async def` with a declared result: every path ends in `return r` or raises (nothing falls through) *)
+Definition run_fn_ret {R} (a : stm R Empty_set) : M R :=
+  bind a (fun c => match c with Normal e => match e with end | Return r => ret r end).
 
 (* ------------------------------------------------------------------------------------------ 2. primitives *)
 (* message: Union[bytes, AckableMessage] - all the pipeline looks at is which of the two it is *)
